@@ -14,6 +14,9 @@ META = {
     "level": "Decides: (R1) each gated atom feature (USE deps, USE defaults, slot deps, sub-slots/slot operators, strong blockers, repository ids) is rejected under the EAPI option PMS ties it to; (R2) the statically evaluated option table enables each of 15 features at the PMS EAPI; (R3) the parser's slot / repository / USE-flag character sets equal those of EAPI.valid_slot_regex, the PMS repository-name class and _valid_use_flag; (R4) __str__ reads every attribute equality compares (other than the non-syntactic negate_vers) and emits slot, repository and USE parts in the order the parser strips them, with the =* operator re-rendered around the version. Does NOT decide that the accepted language equals the PMS grammar nor round-trip equality for concrete strings.",
     "note": "PMS facts are frozen tables in the rule module; regex facts come from the stdlib regex parser applied to literal patterns",
 }
+META["technique"] += "; " + 'delimiter-scan direction and bounded-split rule; data-source analysis of the rendered text'
+META["level"] += " Added after the second round of independent changes: " + "(R5) every delimiter search on the atom text is leftmost-first, the slot text is cut at the first '/' only (or longer splits are rejected), and cpvstr — what __str__ renders — is cut from the argument text, never taken back from the parsed CPV."
+META["technique"] += "; " + 'generic pack G on the anchored files (optional-flag shift, closures outliving a loop iteration, single-pass iterables consumed twice, %-templates built from data, in-place writes to class-level / memoised objects, generators mutating what they yielded, memo keys that are projections)'
 
 GATES = {
     "has_use_dep_defaults": "USE dependency defaults (+)/(-)",
